@@ -46,6 +46,12 @@ CLAIMED = {
  'C13': ('property-based differential testing of the SM9 tower (Fp, Fp2, Fp4, Fp12), mod-N arithmetic, Booth recoding and G1/G2 group operations against a polynomial-basis / affine big-integer reference; exhaustive zero-component masks, table entries and single-window scalars; constructed Jacobian representations',
          'Every tower operation (add, sub, mul, sqr, neg, halve, invert, pow, four Frobenius maps, conjugations, sparse/line products, u- and v-multiplications) is compared with Fp[w]/(w^12+2) arithmetic on operands whose components are zero with probability 0.3 or edge-biased, plus every subset of zero components (4/16/4096 masks) for inversion, squaring, halving and multiplication; mod-N add/sub/mul on all pairs of boundary-limb values, inv/pow around N and p; Booth recodings for w = 5, 7; all 2368 fixed-base table entries, every single-window fixed-base scalar and every 5-bit window value x position x carry for variable-base multiplication; G1 and G2 add/sub/double/neg/equality/scalar multiplication on equal, opposite and generic points in chosen Jacobian representations, compared with the affine group law in both directions.',
          'Trusted: harness/src/refimpl/{field,ec,sm9}.rs (self-checks: a*a^-1 = 1, Frobenius formula == x^p, [N]P1 = [N]P2 = O, all GM/T 0044.5 Annex vectors reproduced). Operands are canonical. Hooks: constructors/accessors for Fp2/Fp4/Fp12, crate-private operations, table. One open known finding (TwistPoint::point_equals) is excluded by exact signature.', '5/C13'),
+ 'C12': ('property-based differential testing of the pairing against an independent textbook R-ate pairing (affine Miller loop over Fp[w]/(w^12+2), final exponent (p^12-1)/N) on generated multiples of the generators in generated Jacobian representations; bilinearity/order/non-degeneracy relations evaluated inside the library',
+         'For generated (a, b, Z_P, Z_Q) the 384-byte value of the library pairing of [b]P1 and [a]P2, written by the harness into affine, random-Z and purely-imaginary-Z Jacobian representations, must equal the reference pairing exactly (1500 cases quick, 20000 thorough, plus the 7x7 grid of small and near-order scalars); inside the library e([b]P1,[a]P2) == e(P1,P2)^(ab mod N) on more pairs, e(P1,P2) != 1, g^N = 1; the Annex value of e(P1,Ppub-s).',
+         'Trusted: harness/src/refimpl/sm9.rs pairing (reproduces the Annex g and, through it, the Annex signature, ciphertext and exchange key; bilinear on its own). Hooks: wrappers for the crate-private pairing, Fp12::pow and Fp12 accessors. Infinity is not a pairing argument.', '5/C12'),
+ 'C16': ('property-based differential testing of hash-to-range and key extraction: constructed 40-byte Ha values on the quotient-estimate edges (q(N-1)+r), top-limb-ones and generated values against BigUint; H1/H2 and the three extraction functions against the reference, incl. master keys crafted so that extraction must fail',
+         'mod_n_from_hash == (Ha mod (N-1)) + 1 for Ha = q(N-1)+r with r in {0..3, N-4..N-2} and q in {0..3, random, q_max-3..q_max}, for 4*10^5 (thorough 4*10^6) generated values incl. top-64-bits-all-ones and boundary-limb patterns; hooked H1/H2 equal the reference for identities/messages of 0..300 bytes and hid 1..3; signing, encryption and exchange keys extracted for edge and generated master keys equal [k (H1+k)^-1]P1 / P2 computed on the affine reference (Annex ds_A and de_B included), and extraction returns None exactly for master keys crafted as N - H1(ID||hid).',
+         'Trusted: reference H1/H2/extraction (Annex values reproduced). Hooks: wrappers for the private sm9_u256_hash1/hash2.', '5/C16'),
 }
 PENDING_REASON = 'check not implemented yet in this commit (work in progress; planned in DESIGN.md section 5) — not claimed until its machinery exists and is silent on the unchanged tree'
 
